@@ -67,19 +67,28 @@ tmpl("nunique_keepna", lambda x, c: x["b"].nunique(dropna=False, **kw(c, "split_
 tmpl("drop_duplicates_last", lambda x, c: x.drop_duplicates(subset=["a"], keep="last", **kw(c, "split_every", "split_out", "shuffle_method"))[["a"]], lambda p: p.drop_duplicates(subset=["a"], keep="last")[["a"]], labelled=False)
 tmpl("gb_sum_dropna_false", lambda x, c: x.groupby("c", dropna=False)["u"].sum(**kw(c, "split_every", "split_out")), lambda p: p.groupby("c", dropna=False)["u"].sum())
 tmpl("gb_mean_observed", lambda x, c: x.groupby("a")["b"].mean(**kw(c, "split_every", "split_out")), lambda p: p.groupby("a")["b"].mean())
-# NOTE: order-sensitive aggregations (first/last) are not value-compared under split_out > 1: a shuffle does not
-# define the row order inside a group (documented "does not preserve a meaningful index/partitioning scheme")
-tmpl("gb_first_last", lambda x, c: x.groupby("a").agg({"u": "first", "b": "last"}, **kw(c, "split_every", "split_out")), lambda p: p.groupby("a").agg({"u": "first", "b": "last"}))
+# order-sensitive aggregations: the answer is defined by the row order of the frame, whatever algorithm is chosen
+tmpl("gb_first_last", lambda x, c: x.groupby("a").agg({"u": "first", "b": "last"}, **kw(c, "split_every", "split_out", "shuffle_method")), lambda p: p.groupby("a").agg({"u": "first", "b": "last"}))
+tmpl("gb_first", lambda x, c: x.groupby("a")[["u", "b"]].first(**kw(c, "split_every", "split_out", "shuffle_method")), lambda p: p.groupby("a")[["u", "b"]].first())
+tmpl("gb_idxmin", lambda x, c: x.groupby("a")["u"].idxmin(**kw(c, "split_every", "split_out", "shuffle_method")), lambda p: p.groupby("a")["u"].idxmin())
+# two keys: the planner raises split_out by itself above 10 partitions
+tmpl("gb_multi_first", lambda x, c: x.groupby(["a", "d"])[["u", "b"]].first(**kw(c, "split_every", "split_out", "shuffle_method")), lambda p: p.groupby(["a", "d"])[["u", "b"]].first())
+tmpl("gb_value_counts", lambda x, c: x.groupby("a")["d"].value_counts(**kw(c, "split_every", "split_out", "shuffle_method")), lambda p: p.groupby("a")["d"].value_counts())
+tmpl("gb_multi_value_counts", lambda x, c: x.groupby(["a", "d"])["b"].value_counts(**kw(c, "split_every", "split_out", "shuffle_method")), lambda p: p.groupby(["a", "d"])["b"].value_counts())
 tmpl("sort", lambda x, c: x.sort_values("u", **kw(c, "npartitions", "upsample", "shuffle_method")), lambda p: p.sort_values("u"), ordered=True)
 tmpl("sort_desc", lambda x, c: x.sort_values("u", ascending=False, **kw(c, "npartitions", "upsample", "shuffle_method")), lambda p: p.sort_values("u", ascending=False), ordered=True)
 tmpl("sort_dupkey", lambda x, c: x.sort_values("a", **kw(c, "npartitions", "upsample", "shuffle_method"))[["a"]], lambda p: p.sort_values("a")[["a"]], ordered=True, labelled=False)
 tmpl("set_index", lambda x, c: x.set_index("u", **kw(c, "npartitions", "upsample", "shuffle_method")), lambda p: p.set_index("u").sort_index(), ordered=True)
 tmpl("set_index_dup", lambda x, c: x.set_index("a", **kw(c, "npartitions", "upsample", "shuffle_method")), lambda p: p.set_index("a").sort_index(kind="stable"), ordered=False)
+tmpl("set_index_dup_loc", lambda x, c: x.set_index("a", **kw(c, "npartitions", "upsample", "shuffle_method")).loc[3], lambda p: p.set_index("a").sort_index(kind="stable").loc[[3]], ordered=False)
+tmpl("set_index_dup_slice", lambda x, c: x.set_index("a", **kw(c, "npartitions", "upsample", "shuffle_method")).loc[2:4], lambda p: p.set_index("a").sort_index(kind="stable").loc[2:4], ordered=False)
+tmpl("sort_two_keys_cumsum", lambda x, c: x.sort_values(["a", "u"], **kw(c, "npartitions", "upsample", "shuffle_method"))["u"].cumsum(), lambda p: p.sort_values(["a", "u"])["u"].cumsum(), ordered=True)
 tmpl("shuffle_gb", lambda x, c: x.shuffle("a", **kw(c, "npartitions", "shuffle_method", "max_branch")).groupby("a")["u"].sum(), lambda p: p.groupby("a")["u"].sum())
 
 
-def presorted_src(n):
-    p = BIG.sort_values("u").reset_index(drop=True)
+def presorted_src(n, by="u"):
+    # by="a": sorted on a key with duplicate runs, so partition borders cut through runs of equal keys
+    p = BIG.sort_values(by, kind="stable").reset_index(drop=True)
     return p
 
 
@@ -100,7 +109,7 @@ def _evaluate(case):
         if case["t"] == "merge":
             return _eval_merge(case)
         fn, pfn, ordered, labelled = TEMPLATES[case["t"]]
-        pdf = presorted_src(0) if case.get("presorted") else BIG
+        pdf = presorted_src(0, "a" if case.get("presorted") == "a" else "u") if case.get("presorted") else BIG
         x = src(pdf, case["n"], sort=True)
         try:
             exp = pfn(tables.dask_dtypes(pdf))
@@ -206,6 +215,11 @@ def run(ctx):
                         if quick and m == "disk" and so in (U, 1):
                             continue
                         cases.append({"t": t, "n": n, "split_every": se, "split_out": so, "shuffle_method": m})
+    for t in ("gb_first_last", "gb_first", "gb_idxmin", "gb_multi_first", "gb_value_counts", "gb_multi_value_counts"):
+        for n in ns:
+            for so in (U, 1, 2, 3):
+                for m in (U, "tasks", "disk"):
+                    cases.append({"t": t, "n": n, "split_out": so, "shuffle_method": m})
     for t in ("unique", "drop_duplicates", "drop_duplicates_subset", "drop_duplicates_last", "value_counts", "value_counts_str", "value_counts_norm", "value_counts_norm_keepna", "value_counts_asc"):
         for n in ns:
             for se in (U, 2, 8):
@@ -221,6 +235,12 @@ def run(ctx):
                             if quick and m == "disk" and up not in (U,):
                                 continue
                             cases.append({"t": t, "n": n, "npartitions": npart, "upsample": up, "shuffle_method": m, "presorted": pres})
+    for t in ("set_index_dup_loc", "set_index_dup_slice", "sort_two_keys_cumsum"):
+        for n in ns:
+            for npart in (U, 1, 2, 5):
+                for m in (U, "tasks", "disk"):
+                    for pres in (False, True, "a"):
+                        cases.append({"t": t, "n": n, "npartitions": npart, "shuffle_method": m, "presorted": pres})
     for n in ns:
         for mb in (U, 2, 3, 4, 8):
             for npart in (U, 2, 7):
